@@ -94,14 +94,17 @@ func runPath(env *Env, cfg *ExploreConfig, solver *Solver, fn *ssa.Function, ite
 		ps:      ps,
 		env:     env,
 		pkgInit: make(map[*ssa.Package]int),
+		built:   make(map[*ssa.Package]bool),
 		side:    make(map[*value]interface{}),
 	}
 	env.setupReflect(i)
+	i.initSched()
 	out.ps = ps
 	out.kind = "ok"
 	start := time.Now()
 	defer func() {
 		out.elapsed = time.Since(start)
+		defer i.killAll()
 		if r := recover(); r != nil {
 			switch r := r.(type) {
 			case pathAbort:
@@ -149,9 +152,8 @@ func runPath(env *Env, cfg *ExploreConfig, solver *Solver, fn *ssa.Function, ite
 		i.initPackage(fn.Pkg)
 	}
 	call(i, nil, token.NoPos, fn, nil)
-	// run goroutines that never got a chance
-	for i.runPending() {
-	}
+	// let the remaining goroutines run until none can make progress
+	i.drain()
 	return
 }
 
